@@ -115,7 +115,7 @@ def check(ctx):
                 rc, log, to = ctx.go_run(drv, "TestVerifMirror", timeout=900,
                                          env={"VERIF_CASES": cin, "VERIF_OUT": cout, "VERIF_PROTO": proto, "VERIF_MAXUDP": mx,
                                               "VERIF_PORT": port, "VERIF_PROGRESS": prog, "VERIF_OTHERUDP": other, "VERIF_BURST": burst,
-                                              "VERIF_V6MIX": 1 if mx >= 64 else 0, "VERIF_VERBOSE": 1 if mx in (28, 1500) else 0,
+                                              "VERIF_V6MIX": 1 if mx >= 64 else 0, "VERIF_VERBOSE": 1 if mx in (28, 1500) else 0, "VERIF_SAMEPORT": 1 if mx in (64, 1500, 9000) else 0,
                                               "VERIF_V6FLOOD": 2200 if (mx == 64 and burst == runs[0][1]) else 0})
                 if "raw receive socket" in log or "operation not permitted" in log:
                     raise vlib.Infra("raw sockets not available: " + log[-500:])
@@ -128,9 +128,12 @@ def check(ctx):
                                   {"proto": proto, "max_udp_size": mx, "case": culprit and {"n": culprit["n"], "form": culprit["form"]}},
                                   key="%s:died:%s" % (proto, "src4" if culprit and culprit["form"] == 4 else "len"))
                     continue
-                for c, g in zip(cases, got):
+                for ci, (c, g) in enumerate(zip(cases, got)):
                     ctx.count([proto, mx, other, burst, c["n"], c["form"]], nontrivial=c["n"] > 0)
-                    where = "%s mirroring (max-udp-size %d), %d-octet datagram from %s" % (proto, mx, c["n"], c["src"])
+                    ports = [40000, 55117, 55118, 4739, 6343, 9996, 2055, 1, 65535, 1024, 0]       # mSrcPorts of the driver
+                    where = "%s mirroring (max-udp-size %d%s), %d-octet datagram from %s port %d" % (
+                        proto, mx, ", the collector's own port number equal to the mirror port" if mx in (64, 1500, 9000) else "",
+                        c["n"], c["src"], ports[ci % len(ports)])
                     if g.get("missing"):
                         ctx.violation(where + ": nothing was re-emitted to the mirror target", {"proto": proto, "max": mx, "n": c["n"], "form": c["form"]},
                                       key=proto + ":missing")
